@@ -115,6 +115,10 @@ int main(void)
   struct file_entry snap[MAXE + 8];
   const size_t alloc0 = ef->alloc_length;
   for (size_t i = 0; i < MAXE + 8; i++) if (i < alloc0) snap[i] = ef->file_entry[i];
+  const int gc0 = ef->group_count;
+  char **const groups0 = ef->groups;
+  char *gsnap[4] = { NULL, NULL, NULL, NULL };
+  for (int i = 0; i < 4; i++) if (i < gc0) gsnap[i] = groups0[i];
 
   /* the caller's arguments: section spelled NULL, "", "[]", "AB", "[AB]", "A", "[A]"; key NULL, "", "x", "xy" */
   in_garg = nondet_int(); in_karg = nondet_int();
@@ -236,6 +240,9 @@ int main(void)
 #if OP >= 2 && OP <= 5
   /* C10: queries do not change the object */
   __CPROVER_assert(ef->length == n0 && ef->alloc_length == alloc0 && wf(ef), "C10: a query leaves the object as it was");
+  __CPROVER_assert(ef->group_count == gc0 && ef->groups == groups0, "C10: a query adds or removes no section");
+  for (int i = 0; i < 4; i++)
+    if (i < gc0 && ef->groups == groups0) __CPROVER_assert(ef->groups[i] == gsnap[i], "C10: a query changes no section name");
   for (size_t i = 0; i < MAXE + 8; i++)
     if (i < alloc0)
       __CPROVER_assert(ef->file_entry[i].key == snap[i].key && ef->file_entry[i].value == snap[i].value &&
